@@ -6,11 +6,13 @@
 //! return (the report printed before exiting contains the witness and the index to resume from).
 
 mod engines;
+mod jobgen;
 mod obs;
 mod probe;
 mod report;
 mod rng;
 mod run;
+mod winmodel;
 
 #[derive(Debug, Clone)]
 pub struct Args {
